@@ -64,6 +64,7 @@ for _side in ("col1", "col2"):
 # one side mixes two tables, the other side was emptied afterwards (in place, or by assigning an empty list)
 for _how in ("del-slice", "assign-empty"):
     CELLS.append(f"mixed/other-side-emptied-{_how}/col1/block")
+CELLS.append("detached-lookup/table-deleted-next-to-mixed-reference")
 for _reach in ("table-never-added", "table-deleted", "table-deleted-by-equal-twin", "column-of-detached-table",
                "column-without-table"):
     CELLS.append(f"detached-lookup/{_reach}")
@@ -616,6 +617,43 @@ class C17Engine(C10.C10Engine):
                     rdb.add(real[t])            # heal: re-added at the end
                     d["tables"].remove(t)
                     d["tables"].append(t)
+            elif reach == "table-deleted-next-to-mixed-reference":
+                # double fault: the database holds a reference one side of which mixes two tables while a table is
+                # deleted.  Whatever the delete call does, a table that is no longer among the database's tables is
+                # detached and has to say so.
+                if len(tables) < 2:
+                    raise Skip
+                ta, tb = g.sample(tables, 2)
+                tc = g.choice(tables)
+                o = C.Reference(g.choice([">", "<", "-"]),
+                                [real[g.choice(m[ta]["cols"])], real[g.choice(m[tb]["cols"])]],
+                                [real[x] for x in (m[tc]["cols"] * 2)[:2]])
+                try:
+                    rdb.add(o)
+                except Exception:
+                    raise Skip
+                t = g.choice(tables)
+                try:
+                    try:
+                        rdb.delete(real[t])
+                    except Exception:
+                        self.count("probe:delete-next-to-mixed-reference-raised")
+                    if any(x is real[t] for x in rdb.tables):
+                        rdb.refs[:] = [x for x in rdb.refs if x is not o]
+                        o.database = None
+                        raise Skip
+                    try:
+                        self.expect_raises(cell, "table.get_refs", lambda: real[t].get_refs(), UDE, ctx)
+                        self.expect_raises(cell, "column.get_refs", lambda: real[m[t]["cols"][0]].get_refs(), UDE, ctx)
+                    finally:
+                        rdb.refs[:] = [x for x in rdb.refs if x is not o]
+                        o.database = None
+                        real[t].database = None     # (a half-finished delete may have left it set)
+                        rdb.add(real[t])            # heal: re-added at the end
+                        d["tables"].remove(t)
+                        d["tables"].append(t)
+                except Skip:
+                    raise
             elif reach == "table-deleted-by-equal-twin":
                 # the table is deleted through an equal but not identical Table object
                 cand_t = [x for x in tables if not m[x]["idxs"]]
